@@ -86,8 +86,10 @@ def find_mode_and_uncertainty(n, bins, confidence) -> (float, float):
     while count < confidence * number_of_samples:
         low_idx -= 1
         high_idx += 1
-        count += n[low_idx] + n[high_idx]
-    error = (bins[high_idx] + bins[high_idx + 1]) / 2 - value
+        # positions beyond either end of the histogram hold no samples
+        count += n[low_idx] if low_idx >= 0 else 0
+        count += n[high_idx] if high_idx < len(n) else 0
+    error = (high_idx - max_idx) * (bins[max_idx + 1] - bins[max_idx])
     return value, error
 
 
